@@ -596,6 +596,14 @@ def scene(kind, shape, rng):
         return d
     if kind == 'dyadic':
         return np.round(rng.normal(40, 8, shape) * 8) / 8.0
+    if kind == 'mostly-constant':
+        # more than half of the pixels of every box share one value (quantised / zero-padded
+        # data): MAD = 0 although the box is not constant
+        d = 5.0 + 2.0 * np.floor(xx / 4.0) + 4.0 * np.floor(yy / 4.0)
+        k = max(1, (ny * nx) // 5)
+        idx = rng.choice(ny * nx, size=k, replace=False)
+        d.flat[idx] += np.round(rng.uniform(0.5, 3.0, k) * 4) / 4.0
+        return d
     raise ValueError(kind)
 
 
@@ -719,6 +727,16 @@ def configurations(ctx):
                             'fill': 0.0, 'bn': bn}
                     yield (('est', gi, bname, rname, sci, bn), spec, shape, ['sources', 'noise'][n % 2],
                            ['random', 'none', 'nan'][n % 3], ckinds[n % 3], thrs[n % 4])
+    # (2b) every estimator pair on quantised data whose boxes have MAD = 0 without being constant
+    for gi, (shape, box) in enumerate([((12, 16), (4, 4)), ((13, 17), (4, 5))]):
+        for (bname, rname) in pairs:
+            for sc in (None, SIGCLIP[1 % len(SIGCLIP)]):
+                n += 1
+                spec = {'box': list(box), 'p': 50, 'fs': [1, 1], 'thr': None, 'sc': sc,
+                        'bkg': bname, 'rms': rname, 'interp': 'zoom', 'edge': 'pad',
+                        'fill': 0.0, 'bn': bool(n % 2)}
+                yield (('mad0', gi, bname, rname, sc is None), spec, shape, 'mostly-constant',
+                       ['none', 'random'][n % 2], 'none', None)
     # (3) filter sizes x thresholds x interpolators x edge methods
     for gi, (shape, box) in enumerate([((13, 17), (4, 5)), ((12, 15), (4, 5)), ((1, 13), (1, 4)), ((11, 14), (3, 4))]):
         for fs in fss:
